@@ -26,6 +26,7 @@ fn main() {
 		"client_reply_overtakes_send" => probes::client_reply_overtakes_send(),
 		"http_client_batch_positional" => probes::http_client_batch_positional(),
 		"server_message_classification" => probes::server_message_classification(),
+		"client_send_failure_reports_cause" => probes::client_send_failure_reports_cause(),
 		_ => json!({"probe": name, "error": "unknown probe"}),
 	};
 	println!("{}", res);
